@@ -1,5 +1,6 @@
 import SimilarVerif.Lemmas.TextDiff
 import SimilarVerif.Lemmas.MyersTotal
+import SimilarVerif.Lemmas.TextTotal
 /-!
 # C04 — text diffs reconstruct both inputs byte-for-byte for every tokenizer
 
@@ -41,5 +42,53 @@ theorem text_diff_myers (repair : Bool) (old new : Array Bytes) (w w' : World) (
 theorem text_diff_patience (repair : Bool) (old new : Array Bytes) (w w' : World) (ops : List Op)
     (h : textDiffOps .patience repair old new w = .ok (ops, w')) : Reconstructs old new ops :=
   textDiff_patience repair old new w w' ops (MyersT.snake_in_box _) (fun _ _ _ _ => MyersT.snake_in_box _) h
+
+end SimilarVerif.C04
+
+namespace SimilarVerif.C04
+open SimilarVerif Spec TextP
+
+/-- **C04 end to end — whatever the text diff returns, and it always returns**: for token ranges that tile
+the two texts with non-empty tokens, every algorithm (Myers, Patience, LCS at once), shipped and repaired
+clean-up, EVERY world (any clock), below and above the 100-token switch: `TextDiffConfig::diff` returns
+ops; the changes of `iter_all_changes` have the C04 shape (old indices `0..#old`, new indices `0..#new`
+consecutively; Equal: both indices, Delete: only old, Insert: only new), the values of the non-Insert
+changes concatenate to the old text and those of the non-Delete changes to the new text, and no value is
+empty.  This is `text_diff_{lcs,myers,patience}` + `old/new_text_reconstructed` without the "returns"
+hypothesis. -/
+theorem text_diff_total_reconstructs (alg : Alg) (repair : Bool) (bo bn : Bytes) (ro rn : List (Nat × Nat))
+    (w : World) (hto : TokP.Tiling ro bo.length) (htn : TokP.Tiling rn bn.length) :
+    ∃ ops w', textDiffOps alg repair (tokens bo ro) (tokens bn rn) w = .ok (ops, w') ∧
+      Walk (eqB (Env.ofTokens (tokens bo ro) (tokens bn rn))) 0 0 ops ro.length rn.length ∧
+      (allChanges ops).filterMap (·.oldIndex) = List.range ro.length ∧
+      (allChanges ops).filterMap (·.newIndex) = List.range rn.length ∧
+      (∀ c ∈ allChanges ops,
+        (c.tag = .equal → c.oldIndex = some c.idx ∧ c.newIndex.isSome ∧ c.fromNew = false) ∧
+        (c.tag = .delete → c.oldIndex = some c.idx ∧ c.newIndex = none ∧ c.fromNew = false) ∧
+        (c.tag = .insert → c.oldIndex = none ∧ c.newIndex = some c.idx ∧ c.fromNew = true)) ∧
+      Reconstructs (tokens bo ro) (tokens bn rn) ops ∧
+      (((allChanges ops).filter (·.tag != .insert)).map (value (tokens bo ro) (tokens bn rn))).flatten = bo ∧
+      (((allChanges ops).filter (·.tag != .delete)).map (value (tokens bo ro) (tokens bn rn))).flatten = bn ∧
+      (∀ c ∈ allChanges ops, value (tokens bo ro) (tokens bn rn) c ≠ []) :=
+  TextTotal.text_diff_total_reconstructs alg repair bo bn ro rn w hto htn
+
+/-- token level, for ANY two token arrays (no tiling needed): the text diff returns and `Reconstructs` holds -/
+theorem text_diff_total_tokens : type_of% @TextTotal.textDiff_total_tokens := @TextTotal.textDiff_total_tokens
+
+/-- instance with no hypothesis left: the byte line tokenizer -/
+theorem text_diff_total_linesB : type_of% @TextTotal.text_diff_total_linesB := @TextTotal.text_diff_total_linesB
+
+/-- non-vacuity: tiling ranges exist (`"ab\nc"` as lines `[0,3) [3,4)`; `"ab\n"` as one line) -/
+example : TokP.Tiling [(0, 3), (3, 4)] [97, 98, 10, 99].length ∧ TokP.Tiling [(0, 3)] [97, 98, 10].length := by
+  simp [TokP.Tiling, TokP.TilingFrom]
+
+/-- … and the theorem applies to them, for every algorithm and clock -/
+example (alg : Alg) (w : World) :=
+  text_diff_total_reconstructs alg false [97, 98, 10, 99] [97, 98, 10] [(0, 3), (3, 4)] [(0, 3)] w
+    (by simp [TokP.Tiling, TokP.TilingFrom]) (by simp [TokP.Tiling, TokP.TilingFrom])
+
+#print axioms text_diff_total_reconstructs
+#print axioms text_diff_total_tokens
+#print axioms text_diff_total_linesB
 
 end SimilarVerif.C04
